@@ -8,7 +8,7 @@ GO=${VERIF_GO:-/opt/veriftools/go1.26.8/bin/go}
 mkdir -p "$HOME/.cache/verif-scratch/setup"
 cd harness
 for p in $($GO list ./... ); do
-  case "$p" in */vh|*/cmd/*) $GO build "$p" ;; *) $GO test -c -tags verif -vet=off -o "$HOME/.cache/verif-scratch/setup/x.test" "$p" ;; esac
+  case "$p" in */vh) $GO build "$p" ;; */cmd/*) $GO build -tags verif -o "$HOME/.cache/verif-scratch/setup/x.bin" "$p" ;; *) $GO test -c -tags verif -vet=off -o "$HOME/.cache/verif-scratch/setup/x.test" "$p" ;; esac
 done
 rm -rf "$HOME/.cache/verif-scratch/setup"
 java -cp /opt/veriftools/tla/tla2tools.jar tlc2.TLC -h 2>&1 | grep -q "model checker" || { echo "TLC does not start"; exit 1; }
